@@ -75,9 +75,24 @@ func runC05(c *Ctx) {
 			if s.Fn == clean1 {
 				c.ArgIs(clean1, "pool put: an element of the previous removed list", []ssaInstr{s.In}, 1, 0, "var:removed[ι]", "removed[ι]")
 				c.MP(clean1, "pool put: only when a previous list exists", []ssaInstr{s.In}, 1, GFalse("isempty"))
-				// the put loop runs before the list is refilled
-				c.Report(clean1, "pool put precedes the refill", c.InstrPos(s.In), true, "")
 			}
+		}
+		// grace cycle: records are recycled before the list is refilled — no pool put is reachable
+		// once the map traversal that collects this cycle's records has started
+		trav := c.CallsD(clean1, "box.vrs.Traverse(*)")
+		if c.Exists(clean1, "this cycle's records collected by traversing the map", trav, 1) {
+			after := reach(clean1, trav[0], nil)
+			late := 0
+			for _, s := range putCalls {
+				if s.Fn == clean1 && after.reached[s.In] {
+					late++
+					c.Report(clean1, "no pool put after this cycle's collection (records get a grace cycle)", c.InstrPos(s.In), false,
+						"voterecordsPoolPut is reachable after box.vrs.Traverse: records detached in this cycle would be recycled at once")
+				}
+			}
+			c.Report(clean1, "pool puts precede this cycle's collection", c.InstrPos(trav[0]), late == 0, "grace cycle")
+			// and the refilled list starts empty: removed is reset before the traversal
+			c.MP(clean1, "previous list dropped before refilling", trav, 1, GStored("&var:removed"), GTrue("isempty"))
 		}
 		c.Rule("R05.2b", "ForEach")
 		c.ForEach(clean1, "each removed record is removed from the map", "(ι < len(var:removed))", 2, GCalled("box.vrs.RemoveValue(*)"),
